@@ -36,7 +36,16 @@ func (m *F81Model) Distance(seq1 []uint8, seq2 []uint8, weights []float64) (floa
 	var dist float64
 
 	diff, total := countDiffs(seq1, seq2, m.selectedSites, weights, false)
+	// No difference between the sequences
+	if total > 0 && diff == 0 {
+		return 0, nil
+	}
 	diff = diff / total
+
+	// Saturated sequences or no comparable site: the distance is not defined
+	if !(1.-diff/m.b1 >= 0) {
+		return math.NaN(), nil
+	}
 
 	if m.gamma {
 		dist = 1. * m.b1 * m.alpha * (math.Pow(1.-diff/m.b1, -1./m.alpha) - 1.)
